@@ -86,16 +86,36 @@ Print Assumptions C13_refuted_uid_global_relock.
 
 (* Registrations whose ids are chosen by the caller (SignalsRaw.v: the table operations of the model
    above with any ids; [rclean]: ids compared per connection, a refused duplicate leaves the table
-   alone).  "One subscriber leaving does not disturb the others", at the level of registrations: a
+   alone), next to connections in every kind of bad health ([RBreak c k]: every write to c fails with
+   EPIPE / a reset / a closed direction, or with io.EOF — UpdateSignal then drops the registration in
+   the middle of its loop —, the connection is closed, one write fails, writes are slow).  "One
+   subscriber leaving [or failing] does not disturb the others", at the level of registrations: a
    registerEvent that was acknowledged is sent every later emission of its signal until an
-   unregisterEvent for its own (connection, id) is processed, whatever else is registered, refused or
-   removed meanwhile — with the same id for another signal, the same id on another connection, ... *)
+   unregisterEvent for its own (connection, id) is processed, as long as ITS OWN connection is not
+   broken — whatever else is registered, refused or removed meanwhile (the same id for another signal,
+   the same id on another connection, ...) and whatever happens to the other connections, wherever
+   their registrations sit in the table relative to this one. *)
 Theorem C13_holds_raw_registration_kept : forall g, rclean g -> forall pre post c m sig uid p,
   snd (raw_step g (raw_run g rinit pre) (RReg c m sig uid)) = OAck ->
   (forall s, ~ In (RUnreg c s uid) post) ->
+  (forall k, ~ In (RBreak c k) (pre ++ post)) ->
   exists l, snd (raw_step g (raw_run g rinit (pre ++ RReg c m sig uid :: post)) (REmit sig p)) = OSent l /\ In (c, m) l.
 Proof. exact raw_acked_receives. Qed.
 Print Assumptions C13_holds_raw_registration_kept.
+
+(* while no connection is in bad health an emission is the plain fan-out over the registrations of the
+   signal, in table order, and leaves the table alone (the model of rounds 3 and 4) *)
+Theorem C13_holds_raw_emission_all_healthy : forall g st sig p, r_bad st = [] -> r_once st = [] ->
+  snd (raw_step g st (REmit sig p)) = OSent (targets sig (r_table st)) /\
+  r_table (fst (raw_step g st (REmit sig p))) = r_table st.
+Proof. exact raw_emit_all_healthy. Qed.
+Print Assumptions C13_holds_raw_emission_all_healthy.
+
+(* nothing is written to a connection every write to which fails *)
+Theorem C13_holds_raw_broken_gets_nothing : forall g st sig p c m l, bad_of (r_bad st) c <> None ->
+  snd (raw_step g st (REmit sig p)) = OSent l -> ~ In (c, m) l.
+Proof. exact raw_bad_gets_nothing. Qed.
+Print Assumptions C13_holds_raw_broken_gets_nothing.
 
 (* after an acknowledged unregisterEvent the table has no entry of that (connection, id): later emissions send nothing to it *)
 Theorem C13_holds_raw_unregistered : forall g, rclean g -> forall os c s uid,
@@ -113,7 +133,7 @@ Print Assumptions C13_holds_raw_refused_no_effect.
 (* the table operation of SignalsRaw.v is the one the mailbox goroutine of the full model performs *)
 Theorem C13_raw_is_mailbox_step : forall g st c f rest st',
   up st c = f :: rest -> step g st (LMbox c) = Some st' ->
-  table st' = r_table (fst (raw_step g {| r_table := table st; r_dead := false |} (op_of c f))).
+  table st' = r_table (fst (raw_step g (rof (table st)) (op_of c f))).
 Proof. exact step_mbox_is_raw_step. Qed.
 Print Assumptions C13_raw_is_mailbox_step.
 
